@@ -91,7 +91,7 @@ def deep_programs():
     return out
 
 
-def known_match(o, table=None):
+def known_match(o, table=None, job=None):
     """o = ['internal', exc, file, function, lineno, msg, expr] | ['timeout', file, function, lineno, expr] -> known finding
     entry or None.  A timeout entry (`match.outcome == "timeout"`) names the file and function in which the alarm fired
     (and, optionally, the expressions): a hang somewhere else is not covered by it."""
@@ -102,8 +102,13 @@ def known_match(o, table=None):
                 continue
             if "file" in m and (len(o) < 3 or m["file"] != o[1] or m.get("function") != o[2]):
                 continue
-            if "sites" in m and (len(o) < 3 or [o[1], o[2]] not in m["sites"]):
-                continue        # `sites`: the (file, function) pairs in which the alarm may fire for this finding
+            # `sites`: [file, function] pairs one of which must be ON THE STACK when the alarm fires (the alarm itself fires in
+            # whatever helper happens to run); `program_regex`: and the program must contain this (e.g. the `**` operator)
+            stack = o[5] if len(o) > 5 and isinstance(o[5], list) else ([[o[1], o[2]]] if len(o) > 2 else [])
+            if "sites" in m and not any(fr in m["sites"] for fr in stack):
+                continue
+            if "program_regex" in m and (job is None or not re.search(m["program_regex"], job.get("src") or "")):
+                continue
             if "file" in m and exprs is not None and (len(o) < 5 or o[4] not in exprs):
                 continue
             return f
@@ -332,7 +337,7 @@ def main(tier: str) -> int:
     known_hit = {}
     ktable = known_findings()
     for key, ((name, op), job, o, n) in sorted(sites.items()):
-        kf = known_match(o, ktable)
+        kf = known_match(o, ktable, job)
         if kf is not None:
             ck.known(kf["id"], kf["what"])
             known_hit[kf["id"]] = known_hit.get(kf["id"], 0) + n
